@@ -8,7 +8,7 @@
    a slash, not a comment), and in  slash-star-slash x star-slash  the content is "slash x".
    `comment_body d body`: body is the content of a block comment whose nested comments are at most d levels deep (d = 0: flat).
    `nseparator`: white space, line comments, block comments with content `comment_body d`, where the comment itself and the d
-   levels inside stay below 2^31: the scanner of trion counts the open comments in an i32 (src/text/token/mod.rs, `depth`),
+   levels inside stay below 2^64: the scanner of trion counts the open comments in a usize (src/text/token/mod.rs, `depth`; an inferred i32 before fix ac45016),
    d + 1 is the largest value the counter takes.
    Independent of the tokenizer model.  No proofs here. *)
 From Coq Require Import ZArith NArith List Bool.
@@ -26,8 +26,8 @@ Inductive comment_body : nat -> str -> Prop :=
 | CB_nest d inner r : comment_body d inner -> comment_body (S d) r ->
     comment_body (S d) ([47; 42] ++ inner ++ [42; 47] ++ r).
 
-(* the comment itself is level 1, its content has at most d more levels: the counter stays <= d + 1 <= 2^31 - 1 *)
-Definition depth_ok (d : nat) : Prop := N.of_nat d + 1 < 2 ^ 31.
+(* the comment itself is level 1, its content has at most d more levels: the counter stays <= d + 1 <= 2^64 - 1 *)
+Definition depth_ok (d : nat) : Prop := N.of_nat d + 1 < 2 ^ 64.
 
 Inductive nseparator : str -> Prop :=
 | NSep_ws ws : white ws -> nseparator ws
